@@ -287,6 +287,7 @@ type world struct {
 	rts      map[string]*engineRT
 	sample   []metrics.Sample
 	rebuilds int
+	envCfg   [nStates]wazero.ModuleConfig
 }
 
 func newWorld(dir string) (*world, error) {
@@ -304,6 +305,34 @@ func newWorld(dir string) (*world, error) {
 	w.cfg = wazero.NewModuleConfig().WithName("").WithArgs("prog", "x").WithEnv("K", "V").
 		WithFSConfig(wazero.NewFSConfig().WithDirMount(dir, "/"))
 	return w, nil
+}
+
+// envPath is the host path mounted as "/" in environment state st (a sibling of the worker's directory).
+func (w *world) envPath(st int) string { return w.dir + "-env-" + stateName[st] }
+
+// prepEnv (re)creates the host side of environment state st before every case - a call may have
+// created or changed the path (mkdir of "." below a missing root) - and returns the module
+// configuration whose only difference from w.cfg is the host path behind the preopen.
+func (w *world) prepEnv(st int) (wazero.ModuleConfig, error) {
+	p := w.envPath(st)
+	if err := os.RemoveAll(p); err != nil {
+		return nil, err
+	}
+	switch st {
+	case stPreRemoved:
+		if err := os.Mkdir(p, 0o700); err != nil {
+			return nil, err
+		}
+	case stPreIsFile:
+		if err := os.WriteFile(p, []byte(fileContent), 0o600); err != nil {
+			return nil, err
+		}
+	}
+	if w.envCfg[st] == nil {
+		w.envCfg[st] = wazero.NewModuleConfig().WithName("").WithArgs("prog", "x").WithEnv("K", "V").
+			WithFSConfig(wazero.NewFSConfig().WithDirMount(p, "/"))
+	}
+	return w.envCfg[st], nil
 }
 
 func (w *world) engine(name string) (*engineRT, error) {
@@ -476,7 +505,7 @@ func stateIndex(name string) int {
 
 // setup drives the instance into descriptor-table state st using WASI calls only.
 func (in *inst) setup(st int) error {
-	if st == stFresh {
+	if st == stFresh || isEnvState(st) {
 		return nil
 	}
 	in.mem.Write(0, in.w.tmpl[:0x400])
@@ -654,10 +683,24 @@ func (w *world) runCase(c caseID) (res caseRes) {
 		res.harness = err.Error()
 		return
 	}
-	mod, err := eng.rt.InstantiateModule(w.ctx, eng.code, w.cfg)
+	cfg := w.cfg
+	if isEnvState(st) {
+		var err error
+		if cfg, err = w.prepEnv(st); err != nil {
+			res.harness = "environment state: " + err.Error()
+			return
+		}
+	}
+	mod, err := eng.rt.InstantiateModule(w.ctx, eng.code, cfg)
 	if err != nil {
 		res.harness = "instantiate: " + err.Error()
 		return
+	}
+	if st == stPreRemoved {
+		if err := os.Remove(w.envPath(st)); err != nil {
+			res.harness = "environment state: " + err.Error()
+			return
+		}
 	}
 	in := &inst{w: w, mod: mod, mem: mod.Memory()}
 	defer func() {
